@@ -35,8 +35,8 @@ def worker(args):
     entry = {"suite_passes": suite_ok, "flagged": {}, "tier": tier, "scale": os.environ.get("VERIF_SCALE", "1")}
     for pr in props:
         q = subprocess.run([os.path.join(ROOT, "verif"), "check", pr, "--tier", tier], cwd=ROOT, env=env, stdout=subprocess.PIPE, stderr=subprocess.STDOUT, text=True)
-        if q.returncode == 1:
-            lines = [l for l in q.stdout.splitlines() if l.startswith("VIOLATION") or l.strip().startswith("class=")]
+        lines = [l for l in q.stdout.splitlines() if l.startswith("VIOLATION") or l.strip().startswith("class=")]
+        if q.returncode == 1 and any(l.startswith("VIOLATION") for l in lines):
             entry["flagged"][pr] = lines[:4]
         elif q.returncode != 0:
             entry["flagged"][pr] = ["HARNESS-ERROR rc=%d: %s" % (q.returncode, q.stdout[-400:])]
@@ -97,8 +97,8 @@ def main():
             entry = {"suite_passes": suite_ok, "nodefault_builds": "error" not in out2, "flagged": {}, "tier": tier}
             for p in props:
                 rc, out = sh([os.path.join(ROOT, "verif"), "check", p, "--tier", tier], cwd=ROOT)
-                if rc == 1:
-                    lines = [l for l in out.splitlines() if l.startswith("VIOLATION") or l.strip().startswith("class=")]
+                lines = [l for l in out.splitlines() if l.startswith("VIOLATION") or l.strip().startswith("class=")]
+                if rc == 1 and any(l.startswith("VIOLATION") for l in lines):
                     entry["flagged"][p] = lines[:4]
                 elif rc != 0:
                     entry["flagged"][p] = ["HARNESS-ERROR rc=%d: %s" % (rc, out[-400:])]
